@@ -402,7 +402,7 @@ macro_rules! pipeline_for {
 
 pub fn run(ctx: &Ctx) {
     let mut rep = Report::new("C11", &ctx.tier, ctx.seed);
-    rep.rule = "validator expressions: all 7 leaves, every one-level combinator over leaf pairs (and_then, 2-slices, Box/Rc/Arc/map x3/1-slice/1-vec, empty slice/vec) exhaustively, plus random expressions to depth 3; claims: exp x nbf each absent or at now, now+-1ns, now+-leeway, now+-leeway+-1ns, far past/future, Timestamp::MIN/MAX (representable ones), string claims absent/equal/different/empty/NUL; now in {0, 1.7e18, MIN+leeway, MAX-leeway}, leeway in {0, 1ns, 60s, 1 day}; then the unseal pipeline (local + public) on all six backends with 12 accepting/rejecting validators. non-trivial: all; distinct = distinct (expression shape, verdict, presence of exp/nbf/sub)".into();
+    rep.rule = "the claim builder (new / setters) at boundary and random instants and durations vs the model and vs the window [now, now+d]; validator expressions: all 7 leaves, every one-level combinator over leaf pairs (and_then, 2-slices, Box/Rc/Arc/map x3/1-slice/1-vec, empty slice/vec) exhaustively, plus random expressions to depth 3; claims: exp x nbf each absent or at now, now+-1ns, now+-leeway, now+-leeway+-1ns, far past/future, Timestamp::MIN/MAX (representable ones), string claims absent/equal/different/empty/NUL; now in {0, 1.7e18, MIN+leeway, MAX-leeway}, leeway in {0, 1ns, 60s, 1 day}; then the unseal pipeline (local + public) on all six backends with 12 accepting/rejecting validators. non-trivial: all; distinct = distinct (expression shape, verdict, presence of exp/nbf/sub)".into();
     let mut model = Model::spawn(&ctx.model);
     let mut g = SplitMix64::new(ctx.seed ^ 0xC11);
     // pinned constants: the model's ts_min/ts_max are jiff's
@@ -420,6 +420,61 @@ pub fn run(ctx: &Ctx) {
             run_case(&mut rep, &mut model, &e, &c, 0, "replay");
             rep.finish(ctx.out.as_deref());
             return;
+        }
+    }
+    // ---- the claim builder: RegisteredClaims::new(now, d) and the four setters against the model (ClaimsBuilder.v)
+    //      and against the statement "valid exactly in [now, now + d]"
+    {
+        let mut cases: Vec<(i128, u64)> = vec![(1_700_000_000_000_000_000, 60_000_000_000), (0, 0), (0, 1), (-1, 1), (tmin, 0), (tmin, 86_400_000_000_000),
+                                               (tmax - 5, 5), (tmax - 5, 6), (tmax, 0), (tmax, 1), (tmax - 1_000_000_000, u64::MAX)];
+        for _ in 0..40 {
+            cases.push(((g.below(4_000_000_000) as i128 - 2_000_000_000) * 1_000_000_000 + g.below(1_000_000_000) as i128, g.below(1 << 50)));
+        }
+        for (now, d) in cases {
+            rep.evaluations += 1;
+            rep.model_evaluations += 1;
+            let replay = json!({"op": "builder", "now": now.to_string(), "d": d});
+            let built = std::panic::catch_unwind(|| RC::new(ts(now), std::time::Duration::from_nanos(d)));
+            let mr = model.eval_pure(&sexp::op("claims_new", vec![sexp::n(now), sexp::n(d as i128)]));
+            let mi = mr.list();
+            match (&built, mi[0].sym()) {
+                (Ok(c), "ok") => {
+                    if claims_sexp(c).to_text() != mi[1].to_text() {
+                        rep.disagreement("builder.model-vs-impl", format!("RegisteredClaims::new({now}, {d}ns) = {} but the model builds {}", claims_sexp(c).to_text(), mi[1].to_text()), replay.clone());
+                    }
+                    // the statement: valid exactly in [now, now + d]; it has an expiry
+                    let end = now + d as i128;
+                    for (t, want) in [(now, true), (end, true), (now - 1, false), (end + 1, false), (now + (d / 2) as i128, true)] {
+                        if t < tmin || t > tmax {
+                            continue;
+                        }
+                        rep.evaluations += 1;
+                        let got = Time::valid_at(ts(t)).validate(c).is_ok();
+                        if got != want {
+                            rep.violation(if want { "validate.rejects-valid" } else { "validate.accepts-invalid" }, format!("claims built by new({now}, {d}ns) are {} at t = {t}", if got { "accepted" } else { "rejected" }), replay.clone());
+                        }
+                    }
+                    if HasExpiry.validate(c).is_err() {
+                        rep.violation("validate.rejects-valid", format!("claims built by new({now}, {d}ns) fail HasExpiry"), replay.clone());
+                    }
+                    // setters: each sets its own field (model) and is accepted by its validator
+                    let c2 = c.clone().from_issuer("issuer".into()).for_audience("aud".into()).for_subject("subj".into()).with_token_id("id-1".into());
+                    let mut ms = mi[1].clone();
+                    for (w, v) in [("iss", "issuer"), ("aud", "aud"), ("sub", "subj"), ("jti", "id-1")] {
+                        ms = model.eval_pure(&sexp::op("claims_set", vec![sexp::s(w), ms.clone(), sexp::x(v.as_bytes())]));
+                    }
+                    if claims_sexp(&c2).to_text() != ms.to_text() {
+                        rep.disagreement("builder.setters-model-vs-impl", format!("setters give {} but the model {}", claims_sexp(&c2).to_text(), ms.to_text()), replay.clone());
+                    }
+                    if FromIssuer("issuer").validate(&c2).is_err() || ForAudience("aud").validate(&c2).is_err() || ForSubject("subj").validate(&c2).is_err()
+                        || FromIssuer("issuer2").validate(&c2).is_ok() || ForAudience("").validate(&c2).is_ok() || ForSubject("sub").validate(&c2).is_ok() {
+                        rep.violation("validate.builder-setters", "a value set by from_issuer / for_audience / for_subject is not what the matching validator accepts".into(), replay.clone());
+                    }
+                    rep.nontrivial(format!("builder|ok|{}", if d == 0 { "d0" } else { "d+" }));
+                }
+                (Err(_), "panic") => rep.nontrivial("builder|overflow".into()),
+                (a, b) => rep.disagreement("builder.model-vs-impl", format!("RegisteredClaims::new({now}, {d}ns): implementation {}, model {b}", if a.is_ok() { "returns" } else { "panics" }), replay.clone()),
+            }
         }
     }
     let mut n = 0u64;
